@@ -222,8 +222,11 @@ func runScenario(f []string) string {
 	ncalls, err3 := strconv.Atoi(f[6])
 	mode := f[7]
 	if err0 != nil || err1 != nil || err2 != nil || err3 != nil || (network != "tcp" && network != "unix") ||
-		(mode != "run" && mode != "closeserver" && mode != "closeclient" && mode != "mem") || nclients < 1 || ncalls < 1 || nclients*ncalls > 4000 {
+		(mode != "run" && mode != "closeserver" && mode != "closeclient" && mode != "mem" && mode != "fin") || nclients < 1 || ncalls < 1 || nclients*ncalls > 4000 {
 		return "bad-op"
+	}
+	if mode == "fin" {
+		return runFin(seed, network, crypto, nclients)
 	}
 	r := &rng{s: seed}
 	sc := &scenario{release: make(chan struct{}), workers: workers}
@@ -455,6 +458,157 @@ func runScenario(f []string) string {
 	return fmt.Sprintf("ok n=%d ok=%d err=%d timeout=%d cancel=%d conn=%d connunexp=%d handled=%d maxconc=%d workers=%d maxmem=%d limit=%d buf=%d ms=%d",
 		total, counts[outOK].Load(), counts[outErr].Load(), counts[outTimeout].Load(), counts[outCancel].Load(), counts[outConn].Load(), counts[outConnUnexpected].Load(),
 		sc.handled.Load(), sc.max.Load(), workers, maxMem, memLimit, bufSize, time.Since(start).Milliseconds())
+}
+
+// Graceful server shutdown: every client has one call in flight whose handler does not answer; the server calls
+// Shutdown (rpcServerWantsFin goes to the clients); a second call is issued on every client connection; the
+// in-flight calls end by their own local deadline.  Then every client connection must be closed by the client
+// (Server.CloseWait returns) and the second calls must complete: served, or failed fast by the reconnect (they
+// are FailIfNoConnection and the listener is gone).  All waits are generous and nothing depends on speed, except
+// that the defect is only reached when the client processes the FIN before the first call's deadline.
+func runFin(seed uint64, network string, crypto bool, nclients int) string {
+	r := &rng{s: seed}
+	var viol []string
+	var vmu sync.Mutex
+	violation := func(format string, args ...any) {
+		vmu.Lock()
+		viol = append(viol, fmt.Sprintf(format, args...))
+		vmu.Unlock()
+	}
+	release := make(chan struct{})
+	var started atomic.Int64
+	handler := func(ctx context.Context, hctx *rpc.HandlerContext) error {
+		b := hctx.Request
+		if len(b) < 20 || binary.LittleEndian.Uint32(b) != reqTag {
+			return &rpc.Error{Code: -9, Description: "malformed"}
+		}
+		callID := binary.LittleEndian.Uint64(b[4:])
+		if binary.LittleEndian.Uint32(b[12:]) == fateTimeout {
+			started.Add(1)
+			select { // deliberately deaf to ctx: the call must end on the client side, by its local deadline
+			case <-release:
+			case <-time.After(120 * time.Second):
+			}
+		}
+		hctx.Response = binary.LittleEndian.AppendUint32(hctx.Response, respTag)
+		hctx.Response = binary.LittleEndian.AppendUint64(hctx.Response, callID)
+		hctx.Response = binary.LittleEndian.AppendUint64(hctx.Response, checksum(b))
+		return nil
+	}
+	key := ""
+	sopts := []rpc.ServerOptionsFunc{rpc.ServerWithLogf(rpc.NoopLogf), rpc.ServerWithHandler(handler), rpc.ServerWithMaxWorkers(16), rpc.ServerWithDisableSpecialHandlers()}
+	if crypto {
+		key = "verif-crypto-key-0123456789abcdef-0123456789abcdef"
+		sopts = append(sopts, rpc.ServerWithCryptoKeys([]string{key}), rpc.ServerWithForceEncryption(true))
+	}
+	srv := rpc.NewServer(sopts...)
+	var ln net.Listener
+	var err error
+	netName := "tcp4"
+	tmpdir := ""
+	if network == "tcp" {
+		ln, err = net.Listen("tcp4", "127.0.0.1:0")
+	} else {
+		netName = "unix"
+		tmpdir, err = os.MkdirTemp("", "verif-rpc")
+		if err == nil {
+			ln, err = net.Listen("unix", filepath.Join(tmpdir, "s.sock"))
+		}
+	}
+	if err != nil {
+		return "SKIP listen: " + err.Error()
+	}
+	if tmpdir != "" {
+		defer os.RemoveAll(tmpdir)
+	}
+	addr := ln.Addr().String()
+	go func() { _ = srv.Serve(ln) }()
+	start := time.Now()
+	mkBody := func(id uint64, fate int) []byte {
+		body := make([]byte, 20)
+		binary.LittleEndian.PutUint32(body, reqTag)
+		binary.LittleEndian.PutUint64(body[4:], id)
+		binary.LittleEndian.PutUint32(body[12:], uint32(fate))
+		return body
+	}
+	clients := make([]rpc.Client, nclients)
+	var wgA, wgB sync.WaitGroup
+	var aDeadline, bOK, bConn atomic.Int64
+	for i := range clients {
+		copts := []rpc.ClientOptionsFunc{rpc.ClientWithLogf(rpc.NoopLogf)}
+		if crypto {
+			copts = append(copts, rpc.ClientWithCryptoKey(key), rpc.ClientWithForceEncryption(true))
+		}
+		clients[i] = rpc.NewClient(copts...)
+		cl, id := clients[i], uint64(i)+1
+		dl := time.Duration(1500+r.below(1500)) * time.Millisecond
+		wgA.Add(1)
+		go func() {
+			defer wgA.Done()
+			req := cl.GetRequest()
+			req.Body = append(req.Body, mkBody(id, fateTimeout)...)
+			ctx, cancel := context.WithTimeout(context.Background(), dl)
+			defer cancel()
+			resp, err := cl.Do(ctx, netName, addr, req)
+			if errors.Is(err, context.DeadlineExceeded) {
+				aDeadline.Add(1)
+			} else {
+				violation("first call of client %d: expected its own deadline, got %v", id, err)
+			}
+			cl.PutResponse(resp)
+		}()
+	}
+	for w := 0; started.Load() < int64(nclients) && w < 1200; w++ { // all first calls are inside their handlers
+		time.Sleep(10 * time.Millisecond)
+	}
+	srv.Shutdown() // graceful: rpcServerWantsFin to every connection, no new connections
+	time.Sleep(time.Duration(20+r.below(200)) * time.Millisecond)
+	const bBound = 40 * time.Second
+	for i := range clients {
+		cl, id := clients[i], uint64(i)+1001
+		wgB.Add(1)
+		go func() {
+			defer wgB.Done()
+			req := cl.GetRequest()
+			req.FailIfNoConnection = true
+			req.Body = append(req.Body, mkBody(id, fateOK)...)
+			ctx, cancel := context.WithTimeout(context.Background(), bBound)
+			defer cancel()
+			resp, err := cl.Do(ctx, netName, addr, req)
+			switch {
+			case err == nil:
+				if len(resp.Body) != 20 || binary.LittleEndian.Uint64(resp.Body[4:]) != id {
+					violation("second call %d received a response that is not its own", id)
+				}
+				bOK.Add(1)
+			case errors.Is(err, rpc.ErrClientConnClosedNoSideEffect), errors.Is(err, rpc.ErrClientConnClosedSideEffect):
+				bConn.Add(1)
+			case errors.Is(err, context.DeadlineExceeded):
+				violation("call %d, issued after the server's FIN, never completed: it sat queued for %v on a connection in graceful shutdown "+
+					"whose last in-flight call had ended by its local deadline (nobody closed that connection)", id, bBound)
+			default:
+				violation("second call %d got unexpected error %v", id, err)
+			}
+			cl.PutResponse(resp)
+		}()
+	}
+	wgA.Wait()
+	close(release) // only now may the handlers answer: the first calls have ended locally
+	ctx, cancel := context.WithTimeout(context.Background(), bBound)
+	if err := srv.CloseWait(ctx); err != nil {
+		violation("Server.CloseWait did not return within %v after the in-flight calls had ended by their local deadlines: "+
+			"a client connection in graceful shutdown was never closed (%v)", bBound, err)
+	}
+	cancel()
+	wgB.Wait()
+	_ = srv.Close()
+	for _, cl := range clients {
+		_ = cl.Close()
+	}
+	if len(viol) != 0 {
+		return "VIOLATION " + strings.Join(viol, " ;; ")
+	}
+	return fmt.Sprintf("ok n=%d ok=%d err=0 timeout=%d cancel=0 conn=%d connunexp=0 ms=%d", 2*nclients, bOK.Load(), aDeadline.Load(), bConn.Load(), time.Since(start).Milliseconds())
 }
 
 func main() {
